@@ -285,3 +285,97 @@ def obs_fresh(P, E, H, scope=None):
     if n < 10:
         r.error("OBS-fresh: only %d inner_subscribe sites (floor 10)" % n)
     return r
+
+
+# --------------------------------------------------------------------------- SUB-inputs
+
+def _mentions_observable(t, depth=0):
+    if not isinstance(t, dict) or depth > 8:
+        return False
+    if t.get("k") == "adt" and norm(t.get("path") or "") == OBSERVABLE:
+        return True
+    return any(_mentions_observable(x, depth + 1) for x in (t.get("args") or [])) or _mentions_observable(t.get("inner"), depth + 1) \
+        or any(_mentions_observable(x, depth + 1) for x in (t.get("elems") or []))
+
+
+def sub_inputs(P, E, H, scope=None):
+    """Every Observable an operator is given (the `source` parameter of execute, Observable-valued fields of the
+    operator struct: trigger, target, the other inputs of a combinator) is subscribed by the per-subscribe code: some
+    subscribe call's receiver - directly, or through the chain of calls that produced it (take_op.execute(source).last())
+    - derives from that input."""
+    r = RuleResult("SUB-inputs", "an operator subscribes every Observable input it was given")
+    n = 0
+    for c in E.sites["create"]:
+        cl = c.arg_closure(0)
+        sb = P.bodies.get(cl) if cl else None
+        if sb is None:
+            continue
+        root = P.bodies.get(sb.root)
+        if root is None or root.kind != "assoc" or root.name != "execute":
+            continue
+        tr = H.type_root(root)
+        if scope is not None and not scope(tr):
+            continue
+        inputs = []      # (description, predicate on a global cell)
+        for i in range(2, root.argc + 1):
+            if _mentions_observable(root.locals[i]["ty"]):
+                inputs.append(("parameter `%s`" % (root.locals[i].get("name") or i), (root.id, "param", i, None)))
+        a = P.adts.get(tr)
+        if a is not None and len(a["variants"]) == 1:
+            ren = P.facts.get("_field_renames_q") or {}
+            for f in a["variants"][0]["fields"]:
+                if _mentions_observable(f["ty"]) and not norm(ty_adt(f["ty"]) or "").startswith("operators::"):
+                    inputs.append(("field `%s`" % f["name"], (root.id, "param", 1, ren.get((tr, f["name"]), f["name"]))))
+        if not inputs:
+            continue
+        # the per-subscribe closure, its closures, and local fns of the operator (possibly mutually recursive, hence not
+        # fully spliced) with their closures
+        scope_bodies = [sb] + P.descendants(sb)
+        for b in P.bodies.values():
+            if b not in scope_bodies and b.id != root.id and H.type_root(b) == tr and not b.impl_trait and b.name not in ("new",):
+                pk = b.raw.get("parent_kind")
+                if b.kind == "closure" or pk in ("Closure", "Fn", "AssocFn"):
+                    scope_bodies.append(b)
+        subs = [(b, k) for b in scope_bodies for k in b.calls if atom(k) == "subscribe"]
+        n += 1
+
+        def reaches(b, prov, want, depth=0, seen=None):
+            seen = seen if seen is not None else set()
+            for t in prov:
+                key = (b.id, t)
+                if key in seen or depth > 5:
+                    continue
+                seen.add(key)
+                for g in P.global_cell(b, t, through_helpers=True):
+                    if g[0] == want[0] and g[1] == want[1] and g[2] == want[2] and (want[3] is None or (g[3] and g[3][0] == want[3])):
+                        return True
+                    if g[1] == "param" and P.bodies[g[0]].kind == "closure" and g[2] >= 2:
+                        # the parameter of a closure handed to an iterator adapter / consumer: an element of the receiver
+                        for (role, k2, idx) in E.roles.get(g[0], []):
+                            if (role == "INLINE" or role.startswith("STD:")) and k2.args:
+                                if reaches(k2.body, k2.body.operand_prov(k2.args[0]), want, depth + 1, seen):
+                                    return True
+                    if g[1] == "ret":
+                        gb = P.bodies[g[0]]
+                        k = gb.call_at(g[2])
+                        if k is not None:
+                            for a_ in k.args:
+                                if reaches(gb, gb.operand_prov(a_), want, depth + 1, seen):
+                                    return True
+                            # closures handed to the call (flat_map-style factories, iterator adapters) may use the input
+                            for t2 in E.inline_targets(k):
+                                for u in t2.upvars:
+                                    par, pv = P.upvar_origin(t2, u["idx"])
+                                    if par is not None and reaches(par, pv, want, depth + 1, seen):
+                                        return True
+            return False
+        for (desc, want) in inputs:
+            ok = any(reaches(b, b.operand_prov(k.args[0]), want) for (b, k) in subs if k.args)
+            r.instance((tr, desc), True, "%d subscribe call(s) in the per-subscribe code" % len(subs))
+            if not ok:
+                r.violate((tr, "input never subscribed", desc),
+                          "%s is given the Observable %s but no subscribe call in its per-subscribe code has a receiver that derives from it: "
+                          "that input is never observed" % (tr.split("::")[-1], desc), body=sb)
+    if n < 30:
+        r.error("SUB-inputs: only %d operators with Observable inputs found (floor 30)" % n)
+    return r
